@@ -91,6 +91,13 @@ def run_history(job: Dict[str, Any], emit, scratch: Path, tk: h5lib.Tokens):
             kw["manifest_exts"] = x
         rec.commit_patch(**kw)
         ev({"op": "mf_commit", "dview": view, "override": override, "mf": manifest_facts(R, rec, km)})
+        if rng.random() < 0.5:
+            # a redundant commit is refused; the manifest of the committed container must stay as it is
+            try:
+                rec.commit_patch(**({"manifest_exts": {"ignored": 1}} if rng.random() < 0.5 else {}))
+            except Exception:
+                pass
+            ev({"op": "mf_commit", "dview": view, "override": "", "mf": manifest_facts(R, rec, km), "after_refused": True})
         if k < npatches:
             rec.create_patch()
     mf_file = Path(str(rec.ih5_files[-1]) + "mf.json")
